@@ -45,7 +45,11 @@ func VerifC19_Copy() {
 		if vh.Choice("isDelete", 2) == 1 {
 			vh.Assert(src.Delete(at(d1, node), tks[k]) == nil, "Delete succeeds")
 		} else {
-			vh.Assert(src.Put(at(d1, node), tks[k], []byte{vh.U8("value")}) == nil, "Put succeeds")
+			val := []byte{vh.U8("value")}
+			if vh.Choice("emptyValue", 2) == 1 {
+				val = []byte{} // key-only records (ROI spans, empty payloads)
+			}
+			vh.Assert(src.Put(at(d1, node), tks[k], val) == nil, "Put succeeds")
 		}
 	}
 	srcKeysBefore, srcValsBefore := srcModel.Pairs()
@@ -63,7 +67,10 @@ func VerifC19_Copy() {
 			a, err1 := src.Get(at(d1, node), tks[k])
 			b, err2 := dst.Get(at(d2, node), tks[k])
 			vh.Assert(err1 == nil && err2 == nil, "reads succeed")
-			vh.Assert((a == nil) == (b == nil) && bytes.Equal(a, b), "the copy reads exactly what the source reads at that version")
+			vh.Assert(bytes.Equal(a, b), "the copy reads exactly what the source reads at that version")
+			ka, _ := src.KeysInRange(at(d1, node), tks[k], tks[k])
+			kb, _ := dst.KeysInRange(at(d2, node), tks[k], tks[k])
+			vh.Assert(len(ka) == len(kb), "a key is present in the copy iff it is present in the source")
 		}
 	}
 	// frame: the bystander instance and the source are untouched
